@@ -186,10 +186,13 @@ func (e *xmlEncoder) doEncode(encoder *xml.Encoder, node *CandidateNode, start x
 			return err
 		}
 
-		var charData xml.CharData = []byte(node.Value)
-		err = encoder.EncodeToken(charData)
-		if err != nil {
-			return err
+		if node.Tag != "!!null" {
+			// a null is an empty element: that is what an empty element decodes to
+			var charData xml.CharData = []byte(node.Value)
+			err = encoder.EncodeToken(charData)
+			if err != nil {
+				return err
+			}
 		}
 
 		if err = e.encodeComment(encoder, lineComment(node)); err != nil {
